@@ -205,7 +205,19 @@ def scan_surface(text, ident):
         if depth == 0 and len(body) > 1:
             break
     pub, priv, impls = [], [], []
+    skip_depth = None       # inside a private nested module: nothing in there is reachable from outside
+    depth = 1
     for l in body[1:]:
+        bare = STR_RE.sub('""', l)
+        if skip_depth is None and re.match(r"^\s*mod\s+\w+\s*\{", bare):
+            skip_depth = depth
+            depth += bare.count("{") - bare.count("}")
+            continue
+        depth += bare.count("{") - bare.count("}")
+        if skip_depth is not None:
+            if depth <= skip_depth:
+                skip_depth = None
+            continue
         mi = IMPL_RE.match(l)
         if mi and l.lstrip().startswith(("impl", "unsafe impl")):
             impls.append((mi.group(1).strip(), mi.group(2).strip()))
@@ -215,7 +227,10 @@ def scan_surface(text, ident):
             vis, kind, name = m.group(1), m.group(2), m.group(3)
             if kind == "enum" and name == ident:
                 continue
-            (pub if vis else priv).append((vis.strip() if vis else "", kind, name))
+            v = vis.strip().replace(" ", "") if vis else ""
+            if v in ("pub(self)", "pub(inself)"):
+                v = ""                      # equivalent to private
+            (pub if v else priv).append((vis.strip() if v else "", kind, name))
     return pub, impls, priv
 
 
@@ -358,7 +373,10 @@ def run_case(case):
             out.violate("an item requested with vis = \"\" was generated non-private", item=name)
     norm = lambda s: s.replace(" ", "")
     exp_norm = {(norm(a), norm(b)) for a, b in exp_impls}
+    surface_types = {norm(ident), norm(spec["repr"]), norm("&'static str")} | {norm(E.struct_name(cfg, spec, w)) for w in ("iter", "names") if E.enabled(cfg, w)}
     for a, b in impls:
+        if norm(b) not in surface_types and norm(ident) not in re.split(r"[^\w]+", norm(a)):
+            continue                        # an impl for a private helper type is not part of the public surface
         if (norm(a), norm(b)) not in exp_norm:
             out.violate("the derive adds a trait impl the user did not request", impl="%s for %s" % (a, b), config=J.cfg_text(cfg))
     got_norm = {(norm(a), norm(b)) for a, b in impls}
